@@ -120,6 +120,7 @@ type Gen struct {
 	cmds      []string
 	obligs    []*Oblig
 	heapSorts map[string]string
+	binderIDs map[*EQuant]int
 	heapKeySort map[string]string
 	declared  map[string]bool
 	nfresh    int
@@ -273,7 +274,7 @@ func (g *Gen) heapGet(st *State, name string) string {
 	if t, ok := st.h[name]; ok {
 		return t
 	}
-	if len(st.preds) > 0 && g.pure == 0 {
+	if len(st.preds) > 0 {
 		// lazily merge the predecessors' versions of a heap first mentioned after the merge
 		var ts []string
 		for _, p := range st.preds {
